@@ -1,16 +1,10 @@
 //! `vcheck <ID> <quick|thorough> [--replay FILE]`
 
-mod checks;
-mod fw;
-mod gen;
-mod msggen;
-mod reqgen;
-mod srvgen;
-mod srvrun;
 
 use std::time::Instant;
 
-use fw::{Ctx, Report, Tier};
+use vchecks::fw::{self, Ctx, Report, Tier};
+use vchecks::{checks, fuzzglue};
 
 fn usage() -> ! {
     eprintln!("usage: vcheck <ID> <quick|thorough> [--replay FILE]");
@@ -78,7 +72,15 @@ fn main() {
             }
         };
         let check = v["check"].as_str().unwrap_or("").to_string();
-        match (entry.replay)(&check, &v["case"]) {
+        let verdict = if check.starts_with("fuzz") {
+            fuzzglue::replay(&id, &check, &v["case"]).unwrap_or_else(|| {
+                eprintln!("INFRA: malformed fuzz replay file {path}");
+                std::process::exit(2);
+            })
+        } else {
+            (entry.replay)(&check, &v["case"])
+        };
+        match verdict {
             Ok(()) => {
                 println!("replay of {path}: property {id} holds on this case");
                 std::process::exit(0);
@@ -99,6 +101,10 @@ fn main() {
     let started = Instant::now();
     let mut report = Report::new(&ctx);
     if let Err(p) = fw::catch(std::panic::AssertUnwindSafe(|| (entry.run)(&ctx, &mut report))) {
+        eprintln!("INFRA: the harness itself panicked: {p}");
+        std::process::exit(2);
+    }
+    if let Err(p) = fw::catch(std::panic::AssertUnwindSafe(|| fuzzglue::after_run(&ctx, &mut report))) {
         eprintln!("INFRA: the harness itself panicked: {p}");
         std::process::exit(2);
     }
